@@ -1,7 +1,7 @@
 (* C02_Properties.v — property theorems of C02 (semaphore).  Only `exact` of lemmas proved in
-   C02_Cons.v / C02_Safe.v, each followed by Print Assumptions. *)
+   C02_Cons.v / C02_Safe.v / C02_Refute.v / C02_Locks3.v / C02_NLW.v, each followed by Print Assumptions. *)
 From Coq Require Import ZArith List Bool Arith.
-From PV Require Import Base.U64 C02.C02_Model C02.C02_Base C02.C02_Cons C02.C02_Safe C02.C02_Refute C02.C02_Locks C02.C02_LockProto C02.C02_Locks2 C02.C02_Locks3.
+From PV Require Import Base.U64 C02.C02_Model C02.C02_Base C02.C02_Cons C02.C02_Safe C02.C02_Refute C02.C02_Locks C02.C02_LockProto C02.C02_Locks2 C02.C02_Locks3 C02.C02_Summ C02.C02_Credit C02.C02_Struct C02.C02_Other C02.C02_NLW.
 Import ListNotations.
 Local Open Scope Z_scope.
 
@@ -77,3 +77,29 @@ Print Assumptions sem_ooo_abba_deadlock_refuted.
 Theorem sem_footprint_protected : forall c ths nv s, reachable (init c false ths nv) s -> locks_inv s.
 Proof. exact locks_reachable. Qed.
 Print Assumptions sem_footprint_protected.
+
+(* ---- NO LOST WAKE-UP, the positive theorem (in-order resume mode, one demand value d = outside
+   F35's class): for EVERY interleaving of any number of photon threads / vCPUs / OS threads whose
+   wait calls all ask for d tokens (signals of any size, interrupts, timeouts, any schedule), in every
+   reachable state: if nobody is inside a critical section of `splock` and no waiter woken by a resume
+   pass is still on its way to re-try its subtraction, then a non-empty wait queue implies
+   m_count < d — nobody who could be served is left blocked.  (`nlw_uniform_inorder_stmt` is the
+   in-order instance of `nlw_uniform_stmt` of C02_Refute.v; out-of-order mode is F9's class.) ---- *)
+Theorem sem_no_lost_wakeup_inorder_uniform : forall d c ths nv s, 0 < d -> 0 <= c < W64 ->
+  reachable_u d (init c false ths nv) s ->
+  splock s = None -> no_pending s -> queue s <> [] -> m_count s < d.
+Proof. exact nlw_inorder_uniform. Qed.
+Print Assumptions sem_no_lost_wakeup_inorder_uniform.
+
+(* its hypotheses are met by a non-trivial state: d = 2, two waiters, signal(3): one waiter is served
+   and returns 0, the other stays queued with m_count = 1 < 2 *)
+Example sem_no_lost_wakeup_inorder_uniform_nonvacuous :
+  exists s, reachable_u 2 (init 0 false three 1) s /\ splock s = None /\ no_pending s /\ queue s = [1%nat] /\
+            m_count s = 1 /\ g_ret0 s = 2.
+Proof. exact nlw_inorder_uniform_hyps_met. Qed.
+
+(* the structural half, on its own: wait-queue well-formedness and the hand-off clause of the resume
+   pass (a waiter is never allotted tokens twice), in-order mode, every reachable state *)
+Theorem sem_queue_structure : forall c ths nv s, reachable (init c false ths nv) s -> sinv s.
+Proof. exact sinv_reachable. Qed.
+Print Assumptions sem_queue_structure.
